@@ -403,6 +403,19 @@ func (n *CandidateNode) UpdateFrom(other *CandidateNode, prefs assignPreferences
 		n.Style = other.Style
 	}
 
+	if n.Kind == ScalarNode && (other.Kind == MappingNode || other.Kind == SequenceNode) && len(other.Content) > 0 &&
+		n.LineComment != "" && other.LineComment == "" {
+		// the line comment of a scalar cannot stay a line comment once the node is a
+		// collection: the yaml emitter would print it after the *next* entry (and
+		// can produce unreadable yaml). Keep it, above the new content.
+		if n.HeadComment == "" {
+			n.HeadComment = n.LineComment
+		} else {
+			n.HeadComment = n.HeadComment + "\n" + n.LineComment
+		}
+		n.LineComment = ""
+	}
+
 	// take the children before touching n: other may contain n (.a.b = .a),
 	// and clearing n's content first would be copied into the result
 	newChildren := other.Copy().Content
